@@ -6,7 +6,7 @@
   3 runs the property's direct oracles on the implementation's own outcomes;
   4 decides (DESIGN.md 3.4) and writes evidence/<id>.json."""
 import os, sys, re, json, time, random, collections, glob, subprocess, itertools
-import vlib, gen, harvest, oracles
+import vlib, gen, harvest, oracles, vmcheck
 from vlib import log
 
 SIZES = {
@@ -37,6 +37,8 @@ class Ctx:
         self.oom = collections.Counter()
         self.classes = collections.Counter()
         self.sets = collections.OrderedDict()
+        self.vm_pool = []         # (case id, backend, RAW, MODEL) for the vm_compute cross-check of the extraction
+        self.build_ok = True
 
     # ---------------------------------------------------------------- builds + proofs
     def build(self, backends=('s1',)):
@@ -53,6 +55,7 @@ class Ctx:
             targets.append('Props/%s.vo' % self.prop)
         ok, out = vlib.coq_make(targets)
         if not ok:
+            self.build_ok = False
             self.broken.append({'kind': 'proof', 'detail': 'coq build failed (a regenerated table, the model or a lemma no longer checks):\n' + out[-3000:]})
         bad = vlib.hygiene()
         if bad:
@@ -63,6 +66,11 @@ class Ctx:
             self.obligations.append((th, pr['ok']))
         if not pr['ok']:
             self.broken.append({'kind': 'proof', 'detail': 'coq/Props/%s.v does not check or depends on axioms:\n%s' % (self.prop, pr.get('output', '')[-3000:])})
+        if self.tier == 'thorough' and pr['ok'] and self.build_ok:
+            ck = vlib.coqchk(self.prop)
+            self.cov['coqchk'] = ck
+            if not ck['ok']:
+                self.broken.append({'kind': 'proof', 'detail': 'coqchk (independent checker) does not accept Props/%s.vo and its dependencies, or reports axioms:\n%s' % (self.prop, ck.get('output', '')[-2000:])})
         ok, msg = vlib.build_driver()
         if not ok:
             raise vlib.BuildError(msg)
@@ -98,6 +106,8 @@ class Ctx:
             if rec['out'] is None:
                 st['unparsable_input'] += 1
                 continue
+            if model and rec['raw'] and rec['model']:
+                self.vm_pool.append((cid, backend, rec['raw'], rec['model']))
             self.n_cases += 1
             self.distinct.add(hash(text))
             ic = vlib.outcome_class(rec['out'])
@@ -143,6 +153,16 @@ class Ctx:
             self.broken.append({'kind': 'correspondence',
                                 'detail': 'model and implementation differ under the observation of %s on %d generated inputs' % (prop, len(d)),
                                 'inputs': [{'input': r['text'], 'impl': (r['out'] or '')[:1500], 'model': (r['model'] or '')[:1500]} for r in d[:10]]})
+        # second evaluation route: a seeded shard of the cases goes through `coqc` (vm_compute), not through the extracted binary
+        if self.build_ok and self.vm_pool:
+            n = 150 if self.tier == 'quick' else 2400
+            try:
+                xc = vmcheck.crosscheck(self.vm_pool, os.path.join(self.workdir, 'vm'), n, self.seed)
+            except Exception as e:
+                xc = {'evaluated': 0, 'skipped': 0, 'mismatches': [], 'error': 'cross-check crashed: %r' % (e,)}
+            self.cov['extraction_crosscheck'] = {k: (v if k != 'mismatches' else v[:10]) for k, v in xc.items()}
+            if xc['mismatches'] or xc['error']:
+                self.broken.append({'kind': 'extraction', 'detail': 'the extracted OCaml model and the model evaluated inside Coq (vm_compute) differ: trusted base broken, not the property. %s %s' % (xc['mismatches'][:10], xc['error'] or '')})
         nob = len(self.obligations)
         ndis = sum(1 for _, ok in self.obligations if ok)
         coverage = collections.OrderedDict()
@@ -299,7 +319,9 @@ def prop_C19(ctx):
     # multi-error and multi-group inputs come from composites and the struct grid; soup adds rejected inputs
     items = sample(ctx.rng, gen.grid_struct_lines(), 600) + gen.composites(ctx.rng, ctx.sz['comp'] // 3) + gen.soup(ctx.rng, ctx.sz['soup'] // 6) \
         + gen.c19_cases(ctx.rng, 600 if ctx.tier == 'quick' else 6000) + [p[0] for p in gen.c14_trait_cases(ctx.rng, 400 if ctx.tier == 'quick' else 4000)] \
-        + [i for i in gen.c15_bases(ctx.rng, 100)]
+        + [i for i in gen.c15_bases(ctx.rng, 100)] \
+        + gen.c03_cases(ctx.rng, 500 if ctx.tier == 'quick' else 5000) + gen.c03_hinted_cases(ctx.rng, 400 if ctx.tier == 'quick' else 4000) \
+        + gen.c02_cases(ctx.rng, 300 if ctx.tier == 'quick' else 3000)       # several groups / ghost-only child paths / ghost arms per input
     recs = ctx.run_set('determinism', items, vlib.obs_full, flags=('--twice',))
     cases = [(r['id'], r['text']) for r in recs]
     same_proc = 0
@@ -1284,12 +1306,14 @@ def prop_C09(ctx):
         it = r['item']
         if vlib.outcome_class(r['out']) != 'ok' or not r.get('sem'):
             continue
-        spec = it.meta['spec']
-        from_arms = into_arms = None
+        per_cp = {}
         for key, imp in oracles.sem_impls(r['sem']) or []:
             if key is None:
                 continue
             kind, fallible = key[0], key[1]
+            cp_now = key[2] if key[2] in it.meta['specs'] else it.meta['cp']
+            spec = it.meta['specs'][cp_now]
+            from_arms, into_arms = per_cp.get(cp_now, (None, None))
             act = oracles.actual_enum_arms(imp, fallible)
             if act is None:
                 ctx.report(r, 'conversion (%s): the body is not a single match' % kind, 'syn-parsed body', key='shape')
@@ -1301,7 +1325,7 @@ def prop_C09(ctx):
                 want = [((v['lit'] or v['pat']).replace(' ', ''), ('expr', 'E::' + v['name'])) for v in spec if (v['lit'] or v['pat'])]
                 plain = [v for v in spec if not (v['lit'] or v['pat'])]
                 got = [(p, b) for p, b in arms]
-                got_lp = [(p, b) for p, b in got if not re.fullmatch(re.escape(it.meta['cp']) + r'::V\d+', p)]
+                got_lp = [(p, b) for p, b in got if not re.fullmatch(re.escape(cp_now) + r'::V\d+', p)]
                 dfl = None
                 if got_lp and got_lp[-1][0] == '_' and got_lp[-1][1] == ('expr', 'dflt()'):
                     dfl = got_lp[-1]
@@ -1327,41 +1351,44 @@ def prop_C09(ctx):
                         ctx.report(r, 'conversion (%s): variant %s should convert to %r, generated arm %r => %r' % (kind, wp, wb, gp, gb), 'literal rule vs syn-parsed match',
                                    key='into-arms')
                 into_arms = got
-        # round trip: literals pairwise distinct, no earlier arm's pattern matches the literal  =>  From(Into(V)) = V
-        if from_arms is not None and into_arms is not None:
-            lits = [v['lit'] for v in spec if v['lit'] is not None]
-            if len(set(lits)) == len(lits):
-                for v in spec:
-                    if v['lit'] is None:
-                        continue
-                    produced = dict(into_arms).get('E::' + v['name'])
-                    if not produced or produced[0] != 'expr':
-                        continue
-                    val = produced[1]
-                    hit = None
-                    undecided = False
-                    for p, b in from_arms:
-                        mres = pat_matches(p, val)
-                        if mres is None:
-                            undecided = True
-                            break
-                        if mres:
-                            hit = (p, b)
-                            break
-                    if undecided:
-                        continue
-                    nrt += 1
-                    earlier = False
-                    for w in spec:
-                        if w is v:
-                            break
-                        if w['pat'] is not None and pat_matches(w['pat'], v['lit']):
-                            earlier = True
-                    if earlier:
-                        continue
-                    if hit is None or hit[1] != ('expr', 'E::' + v['name']):
-                        ctx.report(r, 'round trip: %s converts to %s, which converts back to %r' % (v['name'], val, hit), 'first-match evaluation of the generated arms',
-                                   key='round-trip')
+            per_cp[cp_now] = (from_arms, into_arms)
+        for cp_now, (from_arms, into_arms) in per_cp.items():
+            spec = it.meta['specs'][cp_now]
+            # round trip: literals pairwise distinct, no earlier arm's pattern matches the literal  =>  From(Into(V)) = V
+            if from_arms is not None and into_arms is not None:
+                lits = [v['lit'] for v in spec if v['lit'] is not None]
+                if len(set(lits)) == len(lits):
+                    for v in spec:
+                        if v['lit'] is None:
+                            continue
+                        produced = dict(into_arms).get('E::' + v['name'])
+                        if not produced or produced[0] != 'expr':
+                            continue
+                        val = produced[1]
+                        hit = None
+                        undecided = False
+                        for p, b in from_arms:
+                            mres = pat_matches(p, val)
+                            if mres is None:
+                                undecided = True
+                                break
+                            if mres:
+                                hit = (p, b)
+                                break
+                        if undecided:
+                            continue
+                        nrt += 1
+                        earlier = False
+                        for w in spec:
+                            if w is v:
+                                break
+                            if w['pat'] is not None and pat_matches(w['pat'], v['lit']):
+                                earlier = True
+                        if earlier:
+                            continue
+                        if hit is None or hit[1] != ('expr', 'E::' + v['name']):
+                            ctx.report(r, 'round trip: %s converts to %s, which converts back to %r' % (v['name'], val, hit), 'first-match evaluation of the generated arms',
+                                       key='round-trip')
     ctx.cov['matches_checked'] = n
     ctx.cov['round_trips_evaluated'] = nrt
     generic_sets(ctx, ['enum_grid'], vlib.obs_class)
@@ -1443,6 +1470,88 @@ def c03_grouped(flat):
     return True
 
 
+def c03_parent_leaves(form, prefix):
+    """[(destination member name, source path below the parent field)] for the leaves of a parsed #[parent(..)] form; None when
+    the form uses index members (outside this oracle)"""
+    out = []
+    for c in form:
+        if c['this'].isdigit() or (c['map'] or '').isdigit():
+            return None
+        if c['kids'] is not None:
+            sub = c03_parent_leaves(c['kids'], prefix + [c['this']])
+            if sub is None:
+                return None
+            out += sub
+        else:
+            out.append((c['map'] or c['this'], '.'.join(prefix + [c['this']])))
+    return out
+
+
+def c03_parent_literal(form, ty):
+    """the nested literal from() builds for a parameterised parent: every leaf comes from the flat counterpart"""
+    d = {}
+    for c in form:
+        if c['this'].isdigit() or (c['map'] or '').isdigit():
+            return None
+        if c['kids'] is not None:
+            if c['ty'] is None:
+                return None
+            sub = c03_parent_literal(c['kids'], c['ty'])
+            if sub is None:
+                return None
+            d[c['this']] = sub
+        else:
+            d[c['this']] = 'value.' + (c['map'] or c['this'])
+    return ('lit', ty, d)
+
+
+def c03_parent_oracle(ctx, r, it, ims):
+    """parameterised #[parent(..)] fields of a named struct, counterpart A: from() builds each typed sub-struct once from the flat
+    counterpart's fields; into()/into_existing() read self.<parent>.<sub path>.<field> into the flat counterpart"""
+    n = 0
+    tys = {'par': 'P', 'par2': 'P2'}
+    forms = {k: gen.parse_parent_form(v) for k, v in it.meta['forms'].items() if v}
+    for key, imp in ims:
+        if key is None:
+            continue
+        kind, fallible, cp, _ = key
+        if cp != 'A':
+            continue
+        n += 1
+        blk = oracles.fn_block(imp)
+        stmts = blk[1:] if blk else []
+        if kind.startswith('from'):
+            e = stmts[-1][1] if stmts and stmts[-1][0] == 'tail' else None
+            if fallible and isinstance(e, list) and e[0] == 'call' and oracles.sval(e[1]) == 'Ok' and len(e) == 3:
+                e = e[2]
+            if not (isinstance(e, list) and e[0] == 'struct'):
+                continue
+            got, dups = literal_tree(e)
+            for pf, form in forms.items():
+                want = c03_parent_literal(form, tys[pf])
+                if want is None:
+                    continue
+                if got[2].get(pf) != want:
+                    ctx.report(r, 'conversion (%s): the parameterised #[parent] field `%s` must be built once, every typed sub-struct from the flat counterpart\'s fields: expected %r, generated %r'
+                               % (kind, pf, want, got[2].get(pf)), 'parent form vs syn-parsed literal', key='parent-from')
+        else:
+            existing = kind.endswith('existing')
+            m = oracles.actual_struct_meaning(imp, fallible, existing)
+            if m is None or m[0] not in ('named', 'assign'):
+                continue
+            d = m[1]
+            for pf, form in forms.items():
+                leaves = c03_parent_leaves(form, [pf])
+                if leaves is None:
+                    continue
+                want = {(('other.' + nm) if existing else nm): 'self.' + src for nm, src in leaves}
+                have = {k2: v for k2, v in d.items() if re.match(r'\(?&?\(?self\.%s\b' % pf, v) or k2 in want}
+                if have != want:
+                    ctx.report(r, 'conversion (%s): the members of the parameterised #[parent] field `%s` must be read from self.%s.<sub path>.<field> into the flat counterpart: expected %r, generated %r'
+                               % (kind, pf, pf, want, have), 'parent form vs syn-parsed body', key='parent-into')
+    return n
+
+
 def prop_C03(ctx):
     ctx.build()
     q = ctx.tier == 'quick'
@@ -1452,9 +1561,9 @@ def prop_C03(ctx):
         it = r['item']
         if vlib.outcome_class(r['out']) != 'ok' or not r.get('sem'):
             continue
-        gh0 = [a for a in it.attrs if a.name == 'ghosts' and '@' in (a.args or '')]
-        gp0 = re.match(r'([\w.]+)@', gh0[0].args).group(1) if gh0 else None
-        interleaved = it.meta['gen'] == 'c03_child' and not c03_grouped(list(it.meta['flat']) + ([('#ghost', gp0, None)] if gp0 else []))
+        gpaths = [g for a in it.attrs if a.name == 'ghosts' for g in re.findall(r'(?:^|,)\s*([\w.]+)@', a.args or '')]
+        interleaved = it.meta['gen'] in ('c03_child', 'c03_hinted') and \
+            not c03_grouped(list(it.meta['flat']) + [('#ghost%d' % gi, gp, None) for gi, gp in enumerate(gpaths)])
         for key, ty, fld in any_duplicate_field(r['sem']):
             ctx.report(r, 'a nested struct literal of type %s names the field `%s` twice (an intermediate struct is built more than once)' % (ty, fld),
                        'syn-parsed body', key='built-twice:interleaved' if interleaved else 'built-twice')
@@ -1471,6 +1580,8 @@ def prop_C03(ctx):
                 if key is None:
                     continue
                 kind, fallible, cp, _ = key
+                if cp != 'A':
+                    continue      # the twin counterpart B (decoy path dz) is tied by the correspondence only
                 n += 1
                 blk = oracles.fn_block(imp)
                 stmts = blk[1:] if blk else []
@@ -1518,6 +1629,8 @@ def prop_C03(ctx):
                         cell = 'existing-index-child' if not named else 'existing-paths'
                         ctx.report(r, 'conversion (%s): each field must be written to counterpart.<child path>.<field>: expected %r, generated %r' % (kind, exp, m),
                                    'nesting tree vs syn-parsed body', key=cell)
+        elif it.meta['gen'] == 'c03_parent' and it.shape == 'named':
+            n += c03_parent_oracle(ctx, r, it, ims)
         elif it.meta['gen'] == 'c03_bare_parent':
             pars = [f for f in it.members if any(a.name == 'parent' for a in f.attrs)]
             named = it.shape == 'named'
@@ -1745,7 +1858,7 @@ def prop_C17(ctx):
     ctx.build()
     q = ctx.tier == 'quick'
     k = 1 if q else 8
-    items = gen.c01_cases(ctx.rng, 1200 * k) + gen.c02_cases(ctx.rng, 1200 * k) + gen.c03_cases(ctx.rng, 1000 * k) + gen.c07_cases(ctx.rng, 800 * k) \
+    items = gen.c01_cases(ctx.rng, 1200 * k) + gen.c02_cases(ctx.rng, 1200 * k) + gen.c03_cases(ctx.rng, 1000 * k) + gen.c03_hinted_cases(ctx.rng, 600 * k) + gen.c07_cases(ctx.rng, 800 * k) \
         + gen.c08_cases(ctx.rng, 1200 * k) + gen.c09_cases(ctx.rng, 800 * k) + gen.c11_cases(ctx.rng, 800 * k) + gen.c17_enum_existing(ctx.rng, 60 * k)
     recs = ctx.run_set('accepted_shapes', items, obs_shape, sem=True)
     recs += ctx.run_set('grids', sample(ctx.rng, gen.grid_struct_lines(), 800 * k) + gen.grid_trait_instrs(), obs_shape, sem=True)
